@@ -657,6 +657,17 @@ func TestVerifDial(t *testing.T) {
 								c.CancelAt = 1500 * time.Millisecond
 							}
 							run(c)
+							// the same plan when the very first dial attempts fail before
+							// the sysctl is reached (link not ready, a system call error):
+							// the faulted connection is then opened from the retry loop
+							for _, pre := range []string{"l", "sl"} {
+								c2 := *c
+								c2.ID, c2.Dials = c.ID+"/after-"+pre, pre
+								if tasks == "C" {
+									c2.CancelAt = 2500 * time.Millisecond
+								}
+								run(&c2)
+							}
 						}
 					}
 				}
